@@ -33,8 +33,11 @@ import (
 // What is demanded on failure is only this: a target holds either its sentinel or the conversion
 // of a correctly typed argument that the call supplied for that very parameter.
 //
-// One reading is left open and is accepted either way: a `??` parameter that receives None and a
-// second argument (None "as if absent" could mean that no duplicate exists).
+// A `??` parameter that receives None still *received an argument*: "as if the argument was absent"
+// governs what happens to the variable (it keeps its previous contents), not how many arguments the
+// call supplied for the parameter. The property demands binding "by the same rules" as Starlark
+// functions, where a parameter given twice (by position and by name, or twice by name) is always an
+// error whatever the values are. So None + a second argument for the same `??` parameter must fail.
 
 type tkind int
 
@@ -342,9 +345,10 @@ type supplied struct {
 //
 //	markers[i]: 0 = `name`, 1 = `name?`, 2 = `name??`.
 //
-// It returns whether the call must succeed, whether that is ambiguous (see above), and for each
+// It returns whether the call must succeed, whether a `??` parameter got None plus a second argument
+// (noneDup: a duplicate like any other, reported separately only for the evidence counters), and for each
 // target the set of admissible observations.
-func unpackOracle(markers []int, npos int, sup []supplied, sentinels []string) (ok, ambiguous bool, final []string, allowed []map[string]bool, errc string) {
+func unpackOracle(markers []int, npos int, sup []supplied, sentinels []string) (ok, noneDup bool, final []string, allowed []map[string]bool, errc string) {
 	n := len(markers)
 	allowed = make([]map[string]bool, n)
 	for i := range allowed {
@@ -387,10 +391,9 @@ func unpackOracle(markers []int, npos int, sup []supplied, sentinels []string) (
 	}
 	for i := 0; i < n; i++ {
 		if count[i] > 1 {
-			if effective[i] > 1 {
-				errs = append(errs, "duplicate")
-			} else {
-				ambiguous = true
+			errs = append(errs, "duplicate")
+			if effective[i] <= 1 {
+				noneDup = true // None for `??` plus a second argument: still a duplicate
 			}
 		}
 		if i < firstOptional && count[i] == 0 {
@@ -398,9 +401,9 @@ func unpackOracle(markers []int, npos int, sup []supplied, sentinels []string) (
 		}
 	}
 	if len(errs) > 0 {
-		return false, false, nil, allowed, errs[0]
+		return false, noneDup, nil, allowed, errs[0]
 	}
-	return true, ambiguous, final, allowed, ""
+	return true, false, final, allowed, ""
 }
 
 func classifyUnpackErr(err error) string {
@@ -543,7 +546,7 @@ func (e *engine) unpackArgsCase(r *rand.Rand, si int, markers []int, npos, sub, 
 	}
 	sup = append(sup, kws...)
 
-	wantOK, ambiguous, final, allowed, werr := unpackOracle(markers, npos, sup, sentinels)
+	wantOK, noneDup, final, allowed, werr := unpackOracle(markers, npos, sup, sentinels)
 
 	var err error
 	p := sl.Safe(func() { err = starlark.UnpackArgs("fn", args, kwargs, pairs...) })
@@ -589,10 +592,10 @@ func (e *engine) unpackArgsCase(r *rand.Rand, si int, markers []int, npos, sub, 
 		}
 	}
 	gotOK := err == nil
+	if noneDup {
+		e.count("B_none_plus_second_argument_must_fail", 1)
+	}
 	switch {
-	case ambiguous:
-		e.count("B_ambiguous_none_duplicate", 1)
-		// either an error, or success with the binding in which None counts as absent
 	case gotOK && !wantOK:
 		c.Violation("C08 UnpackArgs accepted-invalid-call "+werr, fmt.Sprintf("spec %v accepted a call the contract rejects (%s)", specText, werr), describe())
 		return
@@ -603,7 +606,7 @@ func (e *engine) unpackArgsCase(r *rand.Rand, si int, markers []int, npos, sub, 
 	// targets
 	for i, t := range targets {
 		obs := t.observe()
-		if gotOK && (wantOK || ambiguous) {
+		if gotOK && wantOK {
 			if obs != final[i] {
 				kind := "wrong-binding"
 				if final[i] == sentinels[i] {
